@@ -2,6 +2,7 @@ package props
 
 import (
 	"fmt"
+	"math/big"
 	"net/url"
 	"strings"
 	"time"
@@ -12,7 +13,7 @@ import (
 
 func init() {
 	register(&Prop{ID: "C06", Run: runC06, MinNontrivial: 500,
-		Rule:        "cases = IdP-signed responses whose first assertion carries 0-4 AudienceRestrictions x 0-4 Audiences each drawn from {exact, case variant, trailing slash, space-padded, prefix, unrelated, empty}, OneTimeUse present/absent, ProxyRestriction absent or Count in {absent,0,1,7,2^31-1} x 0-3 audiences; configured audience in {URI, URI/, \"\"}; later assertions carry opposite conditions to show only the first counts; oracle: NotInAudience iff some restriction has no Audience byte-equal to the configured URI, OneTimeUse iff the element is present, ProxyRestriction summary equals the signed Count and Audience list or is nil; non-trivial = accepted and summarised; distinct by the conditions tuple; configured audiences containing list/pattern/URL metacharacters with Audiences that are pieces, supersets or decoded forms of them; first assertions without an AuthnStatement; Audiences near the configured value (percent-encoded, entity-escaped, ...) or equal to another configured field; foreign-namespace Audience look-alikes; a second Conditions element; Audience values interrupted by a processing instruction; empty or inverted Conditions windows",
+		Rule:        "cases = IdP-signed responses whose first assertion carries 0-4 AudienceRestrictions x 0-4 Audiences each drawn from {exact, case variant, trailing slash, space-padded, prefix, unrelated, empty}, OneTimeUse present/absent, ProxyRestriction absent or Count in {absent,0,1,7,2^31-1} x 0-3 audiences; configured audience in {URI, URI/, \"\"}; later assertions carry opposite conditions to show only the first counts; oracle: NotInAudience iff some restriction has no Audience byte-equal to the configured URI, OneTimeUse iff the element is present, ProxyRestriction summary equals the signed Count and Audience list or is nil; non-trivial = accepted and summarised; distinct by the conditions tuple; configured audiences containing list/pattern/URL metacharacters with Audiences that are pieces, supersets or decoded forms of them; first assertions without an AuthnStatement; Audiences near the configured value (percent-encoded, entity-escaped, ...) or equal to another configured field; foreign-namespace Audience look-alikes; a second Conditions element; Audience values interrupted by a processing instruction; empty or inverted Conditions windows; Count literals at and beyond the int64 / uint64 limits, signed, zero-padded; calls of the metadata and request builders on the provider before validating",
 		Assumptions: []string{"comparison is byte equality on the decoded text", "the warning is about the first assertion only (as the property states)"}})
 }
 
@@ -172,6 +173,7 @@ func runC06(c *mon.Ctx) {
 			a0.Authn = nil // an assertion without an AuthnStatement still has its conditions summarised
 		}
 		a0.Cond.Proxy = nil
+		oddCount := false
 		if r.IntN(2) == 0 {
 			p := &sim.Proxy{}
 			switch r.IntN(5) {
@@ -184,6 +186,12 @@ func runC06(c *mon.Ctx) {
 				p.Count = sim.S("7")
 			case 4:
 				p.Count = sim.S("2147483647")
+			}
+			if r.IntN(4) == 0 {
+				// other integer literals: the largest int64 and what lies beyond, signs, leading zeros, blanks
+				p.Count = sim.S(pick(r, []string{"9223372036854775807", "9223372036854775808", "18446744073709551615", "18446744073709551616", "4294967296", "4294967295",
+					"-1", "-9223372036854775808", "-9223372036854775809", "007", "+7", " 7 ", "00000000000000000000001", "99999999999999999999999999"}))
+				oddCount = true
 			}
 			for j := r.IntN(4); j > 0; j-- {
 				p.Audiences = append(p.Audiences, audOf(r.IntN(12)))
@@ -219,7 +227,14 @@ func runC06(c *mon.Ctx) {
 		cs.Input([]byte(doc))
 		sp, _, _ := pool.SPSource(k, now, signer)
 		sp.AudienceURI = cfgAud
+		if r.IntN(3) == 0 {
+			cs.Note("before validating: %s", OtherUse(r, sp))
+		}
 		ai, err := sp.RetrieveAssertionInfo(sim.Encode(doc, sim.RawLevel))
+		if err != nil && oddCount {
+			cs.Outcome("rejected-unusual-count") // a Count that is no plain decimal int need not be accepted; when it is, it is reproduced
+			continue
+		}
 		if err != nil && (foreign || twoConds != "") {
 			cs.Outcome("rejected-unusual-conditions") // foreign look-alike elements / a doubled Conditions element need not be accepted
 			continue
@@ -256,11 +271,13 @@ func runC06(c *mon.Ctx) {
 			ok = false
 			cs.Violation("proxy-dropped", "ProxyRestriction %s not summarised", proxyString(a0.Cond.Proxy))
 		case a0.Cond.Proxy != nil:
-			wantCount := 0
+			wantCount := new(big.Int)
 			if a0.Cond.Proxy.Count != nil {
-				fmt.Sscanf(*a0.Cond.Proxy.Count, "%d", &wantCount)
+				if _, good := wantCount.SetString(strings.TrimPrefix(strings.TrimSpace(*a0.Cond.Proxy.Count), "+"), 10); !good {
+					wantCount.SetInt64(0)
+				}
 			}
-			if wi.ProxyRestriction.Count != wantCount || !eqStrs(wi.ProxyRestriction.Audience, a0.Cond.Proxy.Audiences) {
+			if big.NewInt(int64(wi.ProxyRestriction.Count)).Cmp(wantCount) != 0 || !eqStrs(wi.ProxyRestriction.Audience, a0.Cond.Proxy.Audiences) {
 				ok = false
 				cs.Violation("proxy-mismatch", "ProxyRestriction summary {%d %q}, signed %s", wi.ProxyRestriction.Count, wi.ProxyRestriction.Audience, proxyString(a0.Cond.Proxy))
 			}
